@@ -297,3 +297,62 @@ func VerifH_C11_concurrentReaders() {
 	}
 	verifCover("done")
 }
+
+// VerifH_C11_roundTrip: an ARP reply with any sender IPv4 address and any MAC of a fixed vendor
+// prefix -> the real processor -> the real JSON encoder -> newline -> the real cache loader ->
+// Get: the printed address maps to the printed MAC; a second reply for the same address wins.
+func VerifH_C11_roundTrip() {
+	res := &c06Results{}
+	sm := NewScanMethod(nil, res)
+	frame := func(label string, ip []byte) []byte {
+		f := append([]byte{}, c06ValidARP...)
+		mac := ndBytes(label, 1)
+		f[27], f[11] = mac[0], mac[0] // sender MAC: vendor prefix 00:0c:29, host part 04:05:xx with any last byte
+		// (every symbolic hex digit doubles the paths of the MAC parser: digit or letter)
+		copy(f[28:32], ip)
+		return f[:len(f):len(f)]
+	}
+	ip := ndBytes("ip", 4)
+	// the decimal rendering forks on the digit count of every octet: SHAPE selects a region
+	digits := func(b byte, n int) bool {
+		switch n {
+		case 1:
+			return b < 10
+		case 2:
+			return b >= 10 && b < 100
+		}
+		return b >= 100
+	}
+	switch sh := verifParam("SHAPE", 0); {
+	case sh >= 1 && sh <= 3:
+		for _, b := range ip {
+			verifAssume(digits(b, sh))
+		}
+	case sh >= 4 && sh <= 6:
+		verifAssume(digits(ip[0], sh-3))
+	}
+	f1, f2 := frame("mac1", ip), frame("mac2", ip)
+	var text []byte
+	for _, f := range [][]byte{f1, f2} {
+		res.got = nil
+		err := sm.ProcessPacketData(f, nil)
+		verifAssert(err == nil && len(res.got) == 1, "valid ARP reply not reported")
+		if len(res.got) != 1 {
+			return
+		}
+		line, merr := res.got[0].MarshalJSON()
+		verifAssert(merr == nil, "ARP result cannot be encoded")
+		text = append(append(text, line...), '\n')
+	}
+	cache := NewCache()
+	err := FillCache(cache, strings.NewReader(string(text)))
+	verifAssert(err == nil, "the cache loader refuses lines printed by the ARP scan")
+	if err != nil {
+		return
+	}
+	got := cache.Get(net.IP(ip))
+	verifAssert(len(got) == 6 && c11Same(got, f2[22:28]), "the printed address does not map to the MAC of its last line")
+	got16 := cache.Get(net.IPv4(ip[0], ip[1], ip[2], ip[3]))
+	verifAssert(len(got16) == 6 && c11Same(got16, f2[22:28]), "16-byte spelling of the address resolves differently")
+	verifCover("done")
+}
